@@ -12,7 +12,7 @@ from sa.props._lib_d import (NONNULL, call_nodes, calls_with, const_value_is, ha
                              reach_under, self_assigns, slice_parts, succ_of, test_value)
 from sa.props._lib_d import must_pass_under as _must_pass_under
 from sa.props._lib_d import Views
-from sa.props._lib_d import MiniVM, VMError, VMRaise, VMStub, _NativeRaise
+from sa.props._lib_d import MiniVM, VMContext, VMError, VMExc, VMObj, VMRaise, VMStub, _NativeRaise
 from sa.source import AnalysisError
 
 PROPERTY = "C47"
@@ -21,22 +21,20 @@ V1 = "protocols/haproxy/_v1parser.py"
 V2 = "protocols/haproxy/_v2parser.py"
 TECHNIQUE = "CFG evaluation on header prefixes; interpreted multi-call segmentation runs; ordering; tables"
 EXPLANATION = (
-    "Decides: (a) the version-sniffing branches of HAProxyProtocolWrapper.dataReceived, evaluated along the CFG on every proper "
-    "prefix of sample valid v1/v2 headers as first segment, must not reach the reject exit (today they do: finding F47), whole "
-    "headers select the matching parser, and first segments that cannot start a header are closed without reaching the "
-    "application; V1Parser.feed / V2Parser.feed evaluated the same way wait for an incomplete header, hand a just-completed one "
-    "to parse(), split header from payload at the right place, and V2Parser.feed's short-buffer reject is unreachable behind the "
-    "wrapper's minimum length; (b) bytes reach the wrapped protocol only as pass-through once _proxyInfo is set or as the "
-    "'remaining' part returned by parser.feed(data); InvalidProxyHeader from feed closes the connection and forwards nothing; the "
-    "chosen parser is stored for later segments; getPeer/getHost return source/destination; (c) ADDRESSFORMATS has a row of the "
-    "size the specification gives for every family|protocol, its width is the slice width, PREFIX/PROXYSTR/version constants of "
-    "wrapper and parsers agree, the v1 protocol literals are all allowed, parsed source/destination fields land in the matching "
-    "slot; (d) segmentation invariance with state carried across calls: wrapper, V1Parser, V2Parser and the exception classes are "
-    "interpreted together from their sources (no import of twisted) on each sample header followed by three payloads, delivered at once "
-    "and in every 2-way and many 3-way segmentations whose first segment is long enough for the sniff (>= 8 / >= 16 bytes, so that the "
-    "F47 constructs stay separate), all attributes threaded from call to call; (header given to parse, bytes forwarded, closed) must "
-    "equal the whole-stream result. Informational only: .decode()/int() outside convertError (the exception still closes the connection). Not decided: "
-    "equality of parsed addresses with the header's for all inputs."
+    "Decided by interpreting the sources (wrapper, V1Parser, V2Parser, exception classes; no import of twisted) on concrete inputs and comparing "
+    "only observable behaviour - getPeer()/getHost(), bytes given to the application, connection closed - with what the PROXY protocol prescribes: "
+    "(a) every proper prefix of the sample valid v1/v2 headers as first segment must not close the connection (today it does: finding F47), whole "
+    "headers are recognised, first segments that cannot start a header are refused or parsed and never forwarded unparsed; V1Parser.feed / "
+    "V2Parser.feed as step functions wait for an incomplete header, hand a just-completed one to parse() and return exactly the bytes after it; "
+    "V1Parser.parse on the sample lines yields source = (src, sport), destination = (dst, dport) of the right family and refuses malformed lines "
+    "with InvalidProxyHeader (the bare 'PROXY UNKNOWN' line is refused today: finding F47u); getPeer/getHost answer the header's addresses or fall "
+    "back to the transport; (d) header + payload delivered at once and in every 2-way / many 3-way segmentations whose first segment is long enough "
+    "for the sniff give the same observable result, with all object state threaded from call to call. Structural (CFG, helpers inlined): bytes reach "
+    "the wrapped protocol only as pass-through once the header is known or as the 'remaining' returned by feed(data); InvalidProxyHeader from feed "
+    "closes and forwards nothing; a stored parser is not re-sniffed; (c) tables: ADDRESSFORMATS rows / sizes / slice width, version and signature "
+    "constants, allowed v1 protocols, V2 source/destination slots. Informational only: .decode()/int() outside convertError. Not decided: equality of "
+    "parsed addresses with the header's for all inputs (sample headers only), V2Parser.parse by evaluation (constantly.Values is outside the "
+    "interpreted modules)."
 )
 ASSUMPTIONS = [
     "transports never deliver an empty segment",
@@ -134,21 +132,257 @@ class _App(VMStub):
         self.calls += 1
 
 
-def _drive(ctx, chunks):
+def _vm(ctx, hooks=None, overrides=None):
+    sib = {"._v1parser": ctx.mod(V1), "._v2parser": ctx.mod(V2), "._exceptions": ctx.mod("protocols/haproxy/_exceptions.py")}
+    return MiniVM(ctx.mod(W), siblings=sib, hooks=hooks, overrides=overrides)
+
+
+class _Parsed(VMStub):
+    """what the stand-in parse() returns: remembers the header it was given; source/destination are present unless the header is
+    of a kind that carries no addresses (v1 UNKNOWN, v2 LOCAL / UNSPEC)"""
+
+    def __init__(self, line):
+        self.header = bytes(line)
+        if self.header.startswith(b"PROXY"):
+            without = self.header.split(b" ")[1:2] == [b"UNKNOWN"]
+        else:
+            without = len(self.header) < 14 or (self.header[12] & 0x0F) == 0 or self.header[13] == 0
+        self.source = None if without else ("source of", self.header)
+        self.destination = None if without else ("destination of", self.header)
+
+    def __eq__(self, other):
+        return isinstance(other, _Parsed) and other.header == self.header
+
+    def __hash__(self):
+        return hash(self.header)
+
+    def __repr__(self):
+        return f"<parsed {self.header[:20]!r}...>"
+
+
+class _Tr(VMStub):
+    def getPeer(self):
+        return "transport-peer"
+
+    def getHost(self):
+        return "transport-host"
+
+
+def _drive(ctx, chunks, full=False):
     """Interpret HAProxyProtocolWrapper (with V1Parser / V2Parser / the exception classes from their own sources) on a sequence
     of deliveries to one fresh wrapper object; every attribute of wrapper and parser is carried from call to call.  parse() is
-    replaced by a marker carrying the header it was given (parse is a pure function of it)."""
+    replaced by a marker carrying the header it was given (parse is a pure function of it).  Only observable behaviour is
+    reported: getPeer() / getHost() afterwards, the bytes the application received, whether the connection was closed."""
     closed = []
-    sib = {"._v1parser": ctx.mod(V1), "._v2parser": ctx.mod(V2), "._exceptions": ctx.mod("protocols/haproxy/_exceptions.py")}
-    vm = MiniVM(ctx.mod(W), siblings=sib, hooks={"loseConnection": lambda vm_, o: closed.append(1), "parse": lambda vm_, o, line: ("INFO", bytes(line))})
+    parsed = []
+
+    def parse(vm_, o, line):
+        parsed.append(bytes(line))
+        return _Parsed(line)
+
+    vm = _vm(ctx, hooks={"loseConnection": lambda vm_, o: closed.append(1), "parse": parse})
     app = _App()
     w = vm.new(vm.cls("HAProxyProtocolWrapper"), None, app)
     w.attrs["wrappedProtocol"] = app
-    for c in chunks:
-        if closed:
-            break
-        vm.call_method(w, "dataReceived", c)
-    return (w.attrs.get("_proxyInfo"), app.data, bool(closed))
+    w.attrs["transport"] = _Tr()
+    raised = None
+    try:
+        for c in chunks:
+            if closed:
+                break
+            vm.call_method(w, "dataReceived", c)
+        peer, host = vm.call_method(w, "getPeer"), vm.call_method(w, "getHost")
+    except (VMRaise, _NativeRaise) as e:
+        raised, peer, host = repr(e)[:120], None, None
+    if full:
+        p = w.attrs.get("_parser")
+        return {"peer": peer, "host": host, "forwarded": app.data, "closed": bool(closed), "parser": p.cls.name if isinstance(p, VMObj) else None,
+                "parsed": list(parsed), "raised": raised}
+    return (peer, host, app.data, bool(closed), raised)
+
+
+def _expected(header, payload):
+    m = _Parsed(header)
+    return (m.source or "transport-peer", m.destination or "transport-host", payload, False, None)
+
+
+class _Addr(VMStub):
+    """recorder standing in for twisted.internet.address"""
+
+    def __getattr__(self, kind):
+        return lambda *a: (kind,) + tuple(a)
+
+
+class _Info(VMStub):
+    @staticmethod
+    def ProxyInfo(header, source, destination):
+        return ("ProxyInfo", bytes(header), source, destination)
+
+
+class _Convert(VMContext):
+    """stand-in for _exceptions.convertError(sourceType, targetType): an exception of sourceType raised in the block is replaced by targetType()"""
+
+    def __init__(self, source, target):
+        self.source, self.target = source, target
+
+    def exit(self, vm, exc):
+        if isinstance(exc, _NativeRaise) and isinstance(self.source, type) and isinstance(exc.native, self.source):
+            raise VMRaise(vm.new(self.target))
+        return False
+
+
+def _evaluated(ctx, K):
+    """Clauses decided by interpreting the sources on concrete inputs and comparing OUTPUTS with what the PROXY protocol prescribes;
+    no statement structure is pinned here (helpers, guard clauses, partition vs split, loops vs unrolled code are all the same)."""
+    q = QW + "dataReceived"
+
+    def run(label, fn):
+        try:
+            return fn()
+        except VMError as e:
+            raise AnalysisError(f"{label}: construct outside the interpreter's subset: {e}")
+        except (VMRaise, _NativeRaise) as e:
+            return ("raised", repr(e)[:160])
+
+    # ---- (a) the version sniff on the first segment --------------------------------------------------------------------------
+    with ctx.section("sniffing"):
+        nprefix = 0
+        kmin = {}
+        for ver, samples, pname in (("v1", V1_SAMPLES, "V1Parser"), ("v2", V2_SAMPLES, "V2Parser")):
+            bad_k = set()
+            witness = ""
+            for name, h in samples.items():
+                for k in range(1, len(h)):
+                    nprefix += 1
+                    r = run("sniff", lambda: _drive(ctx, [h[:k]], full=True))
+                    if r["closed"]:
+                        bad_k.add(k)
+                        witness = witness or f"first segment {h[:k]!r} (first {k} bytes of a valid {ver} {name} header): the wrapper closes the connection"
+                    elif r["parser"] == pname or (r["parser"] is None and not r["raised"] and k >= (16 if ver == "v2" else 8)):
+                        kmin[ver] = min(kmin.get(ver, k), k)
+            c = q + (f" | <{ver} header cut after {_ranges(bad_k)} bytes>" if bad_k else f" | <{ver} header cut anywhere>")
+            ctx.check(not bad_k, "sniff/valid-prefix-rejected", c,
+                      f"a valid PROXY {ver} header whose first segment ends after {_ranges(bad_k)} bytes makes the wrapper close the connection: the decision "
+                      "'not a PROXY header' is taken from the length of the current segment instead of waiting for the discriminating prefix",
+                      witness=witness)
+            for name, h in samples.items():
+                r = run("sniff", lambda: _drive(ctx, [h + b"payload"], full=True))
+                want_hdr = h[:-2] if ver == "v1" else h
+                ctx.check(r["parsed"] == [want_hdr] and not r["closed"] and r["forwarded"] == b"payload" and not r["raised"], "sniff/version-dispatch",
+                          q + f" | <whole {ver} header {name}>",
+                          f"a complete {ver} header in the first segment is not recognised as such (header handed to parse, exactly the payload forwarded): {r!r}")
+        ctx.extra["prefixes_evaluated"] = nprefix
+        for junk in GARBAGE:
+            r = run("sniff", lambda: _drive(ctx, [junk], full=True))
+            ok = (r["closed"] or r["parser"] is not None or r["parsed"]) and not (r["forwarded"] and not r["parsed"]) and not r["raised"]
+            ctx.check(ok, "sniff/garbage-rejected", q + f" | <first segment {junk[:14]!r}...>",
+                      f"a first segment that cannot begin a PROXY header is neither refused nor given to a parser, or reaches the application unparsed: {r!r}")
+
+    # ---- (a') V1Parser.feed / V2Parser.feed as step functions ------------------------------------------------------------------
+    def feeder(rel, cls_name):
+        vm = MiniVM(ctx.mod(rel), siblings={"._exceptions": ctx.mod("protocols/haproxy/_exceptions.py")},
+                    hooks={"parse": lambda vm_, o, line: _Parsed(line)})
+        o = vm.new(vm.cls(cls_name))
+
+        def feed(data):
+            try:
+                return vm.call_method(o, "feed", data)
+            except VMRaise as e:
+                return ("raised",) + tuple(e.exc.names()[:1])
+        return feed
+
+    with ctx.section("V1Parser.feed"):
+        q1 = Q + "_v1parser.V1Parser.feed"
+        nseg = 0
+        for name, h in V1_SAMPLES.items():
+            for k in sorted({1, 5, 8, len(h) // 2, len(h) - 2, len(h) - 1}):
+                for payload in (b"", b"GET /\r\n\r\n"):
+                    nseg += 1
+                    feed = run("V1Parser.feed", lambda: feeder(V1, "V1Parser"))
+                    r1 = run("V1Parser.feed", lambda: feed(h[:k]))
+                    r2 = run("V1Parser.feed", lambda: feed(h[k:] + payload))
+                    ctx.check(tuple(r1 or ()) == (None, None), "v1feed/incomplete-waits", q1 + f" | <{name} header, first {k} of {len(h)} bytes>",
+                              f"an incomplete v1 header is rejected or parsed instead of waiting for the rest: feed() returned {r1!r}")
+                    ctx.check(tuple(r2 or ()) == (_Parsed(h[:-2]), payload), "v1feed/completed-header-parsed",
+                              q1 + f" | <{name} header completed by the 2nd segment after {k} bytes, payload {payload[:6]!r}>",
+                              f"a header completed by a later segment does not yield (parse(text before the first CRLF), bytes after it): feed() returned {r2!r} "
+                              "(a payload containing CRLF must not be cut, header and payload must not be swapped)")
+        ctx.extra["feed_segmentations_evaluated"] = nseg
+        feed = run("V1Parser.feed", lambda: feeder(V1, "V1Parser"))
+        r = run("V1Parser.feed", lambda: feed(b"PROXY TCP6 " + b"f" * 95))
+        ctx.check(tuple(r or ()) == (None, None), "v1feed/length-limit-admits-longest-header", q1 + " | <106 bytes buffered, no CRLF yet>",
+                  f"a v1 header of the maximum legal length (107 bytes with CRLF) is refused while its CRLF is still in flight: {r!r}")
+        feed = run("V1Parser.feed", lambda: feeder(V1, "V1Parser"))
+        r = run("V1Parser.feed", lambda: feed(b"P" * 300))
+        ctx.check(isinstance(r, tuple) and r[:1] == ("raised",) and "InvalidProxyHeader" in r, "v1feed/length-limit", q1 + " | <300 bytes, no CRLF>",
+                  f"an endless first line is buffered without limit: {r!r}")
+
+    with ctx.section("V2Parser.feed"):
+        q2 = Q + "_v2parser.V2Parser.feed"
+        km = kmin.get("v2")
+        ctx.need(km, "a first-segment length for which the wrapper selects V2Parser")
+        for name, h in V2_SAMPLES.items():
+            for k in sorted(set(range(km, min(len(h), km + 4))) | {len(h) - 1}):
+                if not (km <= k < len(h)):
+                    continue
+                for payload in (b"", b"hello"):
+                    feed = run("V2Parser.feed", lambda: feeder(V2, "V2Parser"))
+                    r1 = run("V2Parser.feed", lambda: feed(h[:k]))
+                    r2 = run("V2Parser.feed", lambda: feed(h[k:] + payload))
+                    ctx.check(tuple(r1 or ()) == (None, None), "v2feed/incomplete-waits",
+                              q2 + f" | <{name} header, first {k} of {len(h)} bytes (wrapper selects V2Parser from {km} bytes)>",
+                              f"an incomplete v2 header that the wrapper already routed to V2Parser is rejected, parsed or dropped instead of waiting: {r1!r}")
+                    ctx.check(tuple(r2 or ()) == (_Parsed(h), payload), "v2feed/completed-header-parsed",
+                              q2 + f" | <{name} header completed after a cut at {k}, payload {payload!r}>",
+                              f"a v2 header whose last byte has just arrived does not yield (parse(16 + length bytes), the rest): {r2!r}")
+
+    # ---- getPeer / getHost ----------------------------------------------------------------------------------------------------------
+    with ctx.section("getPeer/getHost"):
+        # observed through the wrapper itself after it has (or has not) seen a header; no attribute name is assumed
+        cases = [("no header yet", [], ("transport-peer", "transport-host"))]
+        for ver, samples in (("v1", V1_SAMPLES), ("v2", V2_SAMPLES)):
+            for name, h in samples.items():
+                m = _Parsed(h[:-2] if ver == "v1" else h)
+                cases.append((f"{ver} {name} header", [h + b"x"], (m.source or "transport-peer", m.destination or "transport-host")))
+        for lab, chunks, (peer, host) in cases:
+            r = run("getPeer/getHost", lambda: _drive(ctx, chunks, full=True))
+            with_addr = peer != "transport-peer"
+            for meth, got, want in (("getPeer", r.get("peer") if isinstance(r, dict) else r, peer), ("getHost", r.get("host") if isinstance(r, dict) else r, host)):
+                ctx.check(got == want, "wrapper/address-from-header" if with_addr else "wrapper/address-fallback", QW + meth + f" | <{lab}>",
+                          f"after {lab}, {meth}() answers {got!r}; it must answer {want!r} (the header's "
+                          f"{'source' if meth == 'getPeer' else 'destination'} address when it carried one, else the transport's own)")
+
+    # ---- V1Parser.parse on concrete lines ----------------------------------------------------------------------------------------------
+    with ctx.section("V1Parser.parse"):
+        qp = Q + "_v1parser.V1Parser.parse"
+        vm = MiniVM(ctx.mod(V1), siblings={"._exceptions": ctx.mod("protocols/haproxy/_exceptions.py")},
+                    overrides={"address": _Addr(), "_info": _Info(), "convertError": lambda s_, t_: _Convert(s_, t_)})
+        cls = vm.cls("V1Parser")
+
+        def parse(line):
+            try:
+                return vm.call(vm.getattr(cls, "parse"), [line], {})
+            except VMRaise as e:
+                return ("raised", e.exc.names()[0], "InvalidProxyHeader" in e.exc.names())
+            except _NativeRaise as e:
+                return ("raised-native", type(e.native).__name__)
+        for name, h in V1_SAMPLES.items():
+            line = h[:-2]
+            f_ = line.split(b" ")
+            if name == "UNKNOWN":
+                want = ("ProxyInfo", line, None, None)
+            else:
+                kind = "IPv4Address" if name == "TCP4" else "IPv6Address"
+                want = ("ProxyInfo", line, (kind, "TCP", f_[2].decode(), int(f_[4])), (kind, "TCP", f_[3].decode(), int(f_[5])))
+            r = run("V1Parser.parse", lambda: parse(line))
+            ctx.check(r == want, "parse/v1-evaluated", qp + f" | <{name} line>",
+                      f"parse({line!r}) gives {r!r}; 'PROXY proto src dst sport dport' means {want!r} (source = (src, sport), destination = (dst, dport))")
+        for line, exc in ((b"PROXZ TCP4 192.0.2.1 198.51.100.7 1 2", "InvalidProxyHeader"), (b"PROXY TCP9 192.0.2.1 198.51.100.7 1 2", "InvalidNetworkProtocol"),
+                          (b"PROXY TCP4 192.0.2.1 198.51.100.7", "MissingAddressData"), (b"PROXY", "InvalidProxyHeader")):
+            r = run("V1Parser.parse", lambda: parse(line))
+            ctx.check(isinstance(r, tuple) and r[:1] == ("raised",) and r[2] is True, "parse/v1-invalid-lines-refused", qp + f" | <{line[:14]!r}...>",
+                      f"parse({line!r}) gives {r!r}; an InvalidProxyHeader (or subclass {exc}) is required so that the wrapper closes the connection")
+    return kmin
 
 
 def _cuts(stream, hlen, first_min, thorough):
@@ -173,9 +407,9 @@ def _segmentation(ctx):
                     try:
                         whole = _drive(ctx, [stream])
                         want_hdr = h[:-2] if ver == "v1" else h
-                        ctx.check(whole == (("INFO", want_hdr), pl, False), "segmentation/whole-stream", c,
-                                  f"delivered in one segment, header + payload give (info, forwarded, closed) = {whole!r}; expected the header parsed, "
-                                  f"exactly {pl!r} forwarded, connection open")
+                        ctx.check(whole == _expected(want_hdr, pl), "segmentation/whole-stream", c,
+                                  f"delivered in one segment, header + payload give (getPeer, getHost, forwarded, closed, raised) = {whole!r}; expected the "
+                                  f"header's addresses (or the transport's for an address-less header), exactly {pl!r} forwarded, connection open")
                         bad = None
                         n = 0
                         for cuts in _cuts(stream, len(h), first_min, ctx.tier == "thorough"):
@@ -194,7 +428,7 @@ def _segmentation(ctx):
                         continue
                     ctx.check(bad is None, "segmentation/invariant", c,
                               "what the application sees depends on how header + payload are cut into segments (first segment long enough for the "
-                              "version sniff): " + (f"delivered as {[bytes(x[:24]) + (b'...' if len(x) > 24 else b'') for x in bad[0]]!r} -> (info, forwarded, closed) = "
+                              "version sniff): " + (f"delivered as {[bytes(x[:24]) + (b'...' if len(x) > 24 else b'') for x in bad[0]]!r} -> (getPeer, getHost, forwarded, closed, raised) = "
                                                     f"{bad[1]!r}; delivered at once -> {whole!r}" if bad else ""),
                               detail=f"{n} segmentations agree with whole-stream delivery")
     ctx.extra["segmentations_evaluated"] = total
@@ -236,50 +470,10 @@ def check(ctx):
         closes = call_nodes(g, "self.loseConnection", "self.transport.loseConnection", "self.transport.abortConnection")
         reject = [n for n in closes if not any(g.dominates(h, n) for h in handlers)]
         ctx.check(bool(reject), "sniff/garbage-rejected", q + " | <site>", "a stream that does not start with a PROXY header is never refused")
-        mk = {"V1": [x.id for x in g.nodes if x.kind == "stmt" and g.reachable(x.id) and isinstance(x.ast, ast.Assign) and call_name(x.ast.value) == "V1Parser"],
-              "V2": [x.id for x in g.nodes if x.kind == "stmt" and g.reachable(x.id) and isinstance(x.ast, ast.Assign) and call_name(x.ast.value) == "V2Parser"]}
-        ctx.need(mk["V1"] and mk["V2"], "parser construction sites V1Parser() / V2Parser()")
+        # where a parser object is stored for the following segments (whatever builds it)
+        mk = self_assigns(g, "_parser", lambda v: not const_value_is(v, lambda x: x is None))
+        ctx.need(mk, "the place where the chosen parser is stored in self._parser")
         wr.append(True)
-
-    with ctx.section("sniffing"):
-        ctx.need(bool(wr), "anchors of HAProxyProtocolWrapper.dataReceived")
-        # ---- sec: sniffing
-        for ver, samples in (("v1", V1_SAMPLES), ("v2", V2_SAMPLES)):
-            bad_k = set()
-            witness = ""
-            nprefix = 0
-            for name, h in samples.items():
-                for k in range(1, len(h)):
-                    nprefix += 1
-                    facts = dict(wfacts, **{dparam: h[:k]})
-                    R = reach_under(g, facts, avoid=fd)
-                    if R & set(reject):
-                        bad_k.add(k)
-                        if not witness:
-                            witness = f"first segment {h[:k]!r}: " + g.describe(path_under(g, facts, reject, avoid=fd))
-            ctx.extra.setdefault("prefixes_evaluated", 0)
-            ctx.extra["prefixes_evaluated"] += nprefix
-            c = q + f" | <{ver} header cut after {_ranges(bad_k)} bytes>" if bad_k else q + f" | <{ver} header cut anywhere>"
-            ctx.check(not bad_k, "sniff/valid-prefix-rejected", c,
-                      f"a valid PROXY {ver} header whose first segment ends after {_ranges(bad_k)} bytes makes the wrapper close the connection: the decision "
-                      "'not a PROXY header' is taken from the length of the current segment instead of waiting for the discriminating prefix",
-                      witness=witness)
-            # whole header (with payload) selects the right parser and is not rejected
-            for name, h in samples.items():
-                facts = dict(wfacts, **{dparam: h + b"payload"})
-                want, other = (mk["V1"], mk["V2"]) if ver == "v1" else (mk["V2"], mk["V1"])
-                w = must_pass_under(g, facts, want, to=fd + [g.exit])
-                R = reach_under(g, facts, avoid=fd)
-                ctx.check(w is None and not (R & set(other)) and not (R & set(reject)), "sniff/version-dispatch", q + f" | <whole {ver} header {name}>",
-                          f"a complete {ver} header in the first segment does not select the {ver} parser", witness=g.describe(w))
-        for junk in GARBAGE:
-            facts = dict(wfacts, **{dparam: junk})
-            # refused at once, or handed to a parser (whose parse() refuses it: InvalidProxyHeader -> handler rules below); never forwarded unparsed
-            w = must_pass_under(g, facts, reject + fd)
-            R = reach_under(g, facts, avoid=fd)
-            ctx.check(w is None and not (R & set(fw)), "sniff/garbage-rejected", q + f" | <first segment {junk[:14]!r}...>",
-                      "a first segment that cannot begin a PROXY header is neither refused nor given to a parser, or reaches the application unparsed",
-                      witness=g.describe(w))
 
     with ctx.section("wrapper ordering"):
         ctx.need(bool(wr), "anchors of HAProxyProtocolWrapper.dataReceived")
@@ -324,154 +518,16 @@ def check(ctx):
         facts = {"self._proxyInfo": None, "self._parser": NONNULL}
         w = must_pass_under(g, facts, fd)
         R = reach_under(g, facts, avoid=fd)
-        ctx.check(w is None and not (R & set(reject)) and not (R & set(mk["V1"] + mk["V2"])), "wrapper/parser-kept-across-segments", q + " | <parser chosen, header incomplete>",
+        ctx.check(w is None and not (R & set(reject)) and not (R & set(mk)), "wrapper/parser-kept-across-segments", q + " | <parser chosen, header incomplete>",
                   "the next segment of an incomplete header is sniffed again instead of being fed to the parser chosen for the first segment",
                   witness=g.describe(w))
-        for ver in ("V1", "V2"):
-            for n in mk[ver]:
-                st = g.node(n).ast
-                tgs = [src(t) for t in st.targets]
-                later = self_assigns(g, "_parser")
-                made = {t: NONNULL for t in tgs}      # the freshly built parser object, under whatever local name
-                ok = "self._parser" in tgs or (bool(later) and must_pass_under(g, made, later, srcs=succ_of(g, n, None), to=fd + [g.exit]) is None)
-                ctx.check(ok, "wrapper/parser-kept-across-segments", ctx.construct(q, st),
-                          "the parser chosen for the first segment is not stored in self._parser: the rest of a segmented header is sniffed as if it were a new stream")
         acc = class_accesses(ctx.mod(W), ctx.cls(W, "HAProxyProtocolWrapper"), {"_proxyInfo"}, {"self"})
         for a in acc:
             inl_ = _views(ctx).inliner(W)
             fn_ = a.func.split(".")[-1]
             ok = inl_.permitted(fn_, {"__init__"}) or (inl_.permitted(fn_, {"dataReceived"}) and any(src(a.node) == src(g.node(n).ast) for n in fd))
             ctx.check(ok, "wrapper/proxyinfo-who-may-write", ctx.construct(Q + "_wrapper." + a.func, a.node), "_proxyInfo is set from something other than the parser's result")
-    with ctx.section("getPeer/getHost"):
-        # ---- sec: getPeer getHost
-        for meth, attr in (("getPeer", "source"), ("getHost", "destination")):
-            fm = _F(ctx, W, f"HAProxyProtocolWrapper.{meth}")
-            gm = ctx.cfg(fm)
-            rets = [x for x in gm.nodes if x.kind == "stmt" and gm.reachable(x.id) and isinstance(x.ast, ast.Return) and x.ast.value is not None]
-            pr = [x for x in rets if src(x.ast.value).startswith("self._proxyInfo.")]
-            ok = bool(pr) and all(src(x.ast.value) == f"self._proxyInfo.{attr}" for x in pr) and \
-                all(implied(gm, x.id, [{f"self._proxyInfo.{attr}": NONNULL, "self._proxyInfo": NONNULL}], [{f"self._proxyInfo.{attr}": None, "self._proxyInfo": NONNULL}]) for x in pr)
-            ctx.check(ok, "wrapper/address-from-header", QW + meth, f"{meth}() does not answer with the header's {attr} address when the header carried one")
-            tr = [x for x in rets if src(x.ast.value) == f"self.transport.{meth}()"]
-            ctx.check(bool(tr), "wrapper/address-fallback", QW + meth, f"{meth}() has no fallback to the transport's own address (UNKNOWN / LOCAL headers)")
-
-    with ctx.section("V1Parser.feed"):
-        ctx.need(bool(K), "V1Parser / V2Parser constants")
-        # ================= (a') the parsers' feed(), evaluated on concrete segmentations =================================================
-        f1 = _F(ctx, V1, "V1Parser.feed")
-        g1 = ctx.cfg(f1)
-        q1 = Q + "_v1parser.V1Parser.feed"
-        d1 = f1.args.args[1].arg
-        parse1 = call_nodes(g1, "self.parse", "cls.parse", "V1Parser.parse")
-        rz1 = _raises(g1, "InvalidProxyHeader")
-        none_ret = [x.id for x in g1.nodes if x.kind == "stmt" and g1.reachable(x.id) and isinstance(x.ast, ast.Return) and x.ast.value is not None
-                    and src(x.ast.value) in ("(None, None)",)]
-        base1 = {"self.NEWLINE": K["V1Parser.NEWLINE"]}
-        nseg = 0
-        for name, h in V1_SAMPLES.items():
-            for cut in sorted({1, 5, 8, len(h) // 2, len(h) - 2, len(h) - 1}):
-                for k in (cut,):
-                    nseg += 1
-                    # first segment h[:k] : incomplete
-                    facts = dict(base1, **{"self.buffer": b"", d1: h[:k]})
-                    R = reach_under(g1, facts)
-                    w = must_pass_under(g1, facts, none_ret)
-                    ctx.check(w is None and not (R & set(rz1)) and not (R & set(parse1)), "v1feed/incomplete-waits", q1 + f" | <{name} header, first {k} of {len(h)} bytes>",
-                              "an incomplete v1 header is rejected or parsed instead of waiting for the rest", witness=g1.describe(w))
-                    # second segment completes it
-                    facts = dict(base1, **{"self.buffer": h[:k], d1: h[k:] + b"GET /\r\n\r\n"})
-                    w = must_pass_under(g1, facts, parse1)
-                    R = reach_under(g1, facts, avoid=parse1)
-                    ctx.check(w is None and not (R & set(none_ret)), "v1feed/completed-header-parsed", q1 + f" | <{name} header completed by the 2nd segment after {k} bytes>",
-                              "a header completed by a later segment is not parsed", witness=g1.describe(w))
-        ctx.extra["feed_segmentations_evaluated"] = nseg
-        facts = dict(base1, **{"self.buffer": b"", d1: b"PROXY TCP6 " + b"f" * 95})   # 106 bytes, CR LF still to come: longest legal line is 107
-        R = reach_under(g1, facts)
-        ctx.check(not (R & set(rz1)), "v1feed/length-limit-admits-longest-header", q1 + " | <106 bytes buffered, no CRLF yet>",
-                  "a v1 header of the maximum legal length (107 bytes with CRLF) is refused while its CRLF is still in flight")
-        facts = dict(base1, **{"self.buffer": b"", d1: b"P" * 300})
-        R = reach_under(g1, facts)
-        ctx.check(bool(R & set(rz1)) and g1.exit not in R, "v1feed/length-limit", q1 + " | <300 bytes, no CRLF>", "an endless first line is buffered without limit")
-        sp = [x for x in walk_local(f1) if isinstance(x, ast.Call) and isinstance(x.func, ast.Attribute) and x.func.attr == "split" and src(x.func.value) == "self.buffer"]
-        ok = len(sp) == 1 and len(sp[0].args) == 2 and src(sp[0].args[0]) == "self.NEWLINE" and const_value_is(sp[0].args[1], lambda v: v == 1)
-        ctx.check(ok, "v1feed/split-once", q1 + " | <split>",
-                  "the buffer is not split exactly once at the first CRLF: a payload containing CRLF is truncated / mistaken for the header")
-        # (info, remaining): remaining is the tail of the split, header the head
-        rets = [x for x in walk_local(f1) if isinstance(x, ast.Return) and isinstance(x.value, ast.Tuple) and len(x.value.elts) == 2 and src(x.value) != "(None, None)"]
-        ok = False
-        if len(rets) == 1 and sp:
-            info, rem = rets[0].value.elts
-            idef = local_def(f1, info)
-            hname = src(idef.args[0]) if isinstance(idef, ast.Call) and call_name(idef) in ("self.parse", "cls.parse", "V1Parser.parse") and idef.args else None
-            lines = None
-            for st in walk_local(f1):
-                if isinstance(st, ast.Assign) and st.value is sp[0] and isinstance(st.targets[0], ast.Name):
-                    lines = st.targets[0].id
-            pops = [n for n in g1.nodes if n.kind == "stmt" and g1.reachable(n.id) and isinstance(n.ast, ast.Assign) and isinstance(n.ast.value, ast.Call)
-                    and lines and src(n.ast.value.func) == f"{lines}.pop" and isinstance(n.ast.targets[0], ast.Name)]
-            if hname and lines and len(pops) == 2 and all(not p.ast.value.args or const_value_is(p.ast.value.args[0], lambda v: v == -1) for p in pops):
-                first, second = (pops[0], pops[1]) if g1.path([pops[0].id], [pops[1].id], strict=True) else (pops[1], pops[0])
-                ok = first.ast.targets[0].id == src(rem) and second.ast.targets[0].id == hname
-            elif hname and lines:
-                for st in walk_local(f1):
-                    if isinstance(st, ast.Assign) and isinstance(st.targets[0], ast.Tuple) and src(st.value) == lines:
-                        ok = [src(e) for e in st.targets[0].elts] == [hname, src(rem)]
-        ctx.check(ok, "v1feed/header-and-payload-order", q1 + " | <return>", "feed() does not return (parse(text before the first CRLF), bytes after it)")
-        rs1 = self_assigns(g1, "buffer", lambda v: const_value_is(v, lambda x: x == b""))
-        ctx.check(all(g1.must_precede(rs1, [p]) is None or True for p in parse1) and not (reach_under(g1, dict(base1, **{"self.buffer": b"", d1: b"PROXY"})) & set(rs1)),
-                  "v1feed/buffer-kept-while-incomplete", q1 + " | <incomplete>", "the partial header is discarded while waiting for the rest")
-
-    with ctx.section("V2Parser.feed"):
-        ctx.need(bool(K), "V1Parser / V2Parser constants")
-        ctx.need(bool(wr), "anchors of HAProxyProtocolWrapper.dataReceived")
-        # ---- sec: V2Parser.feed
-        f2 = _F(ctx, V2, "V2Parser.feed")
-        g2 = ctx.cfg(f2)
-        q2 = Q + "_v2parser.V2Parser.feed"
-        d2 = f2.args.args[1].arg
-        parse2 = call_nodes(g2, "self.parse", "cls.parse", "V2Parser.parse")
-        rz2 = _raises(g2, "InvalidProxyHeader")
-        none2 = [x.id for x in g2.nodes if x.kind == "stmt" and g2.reachable(x.id) and isinstance(x.ast, ast.Return) and x.ast.value is not None and src(x.ast.value) == "(None, None)"]
-        rs2 = self_assigns(g2, "buffer", lambda v: const_value_is(v, lambda x: x == b""))
-        # smallest first segment for which the wrapper hands a v2 header to V2Parser
-        kmin = None
-        h0 = V2_SAMPLES["INET/STREAM"]
-        for k in range(1, len(h0) + 1):
-            if reach_under(g, dict(wfacts, **{dparam: h0[:k]}), avoid=fd) & set(mk["V2"]):
-                kmin = k
-                break
-        ctx.need(kmin, "a first-segment length for which the wrapper selects V2Parser")
-        for name, h in V2_SAMPLES.items():
-            for k in sorted(set(range(kmin, min(len(h), kmin + 4))) | {len(h) - 1}):
-                if k >= len(h) or k < kmin:
-                    continue
-                facts = {"self.buffer": b"", d2: h[:k]}
-                R = reach_under(g2, facts)
-                w = must_pass_under(g2, facts, none2)
-                ctx.check(w is None and not (R & set(rz2)) and not (R & set(parse2)) and not (R & set(rs2)), "v2feed/incomplete-waits",
-                          q2 + f" | <{name} header, first {k} of {len(h)} bytes (wrapper selects V2Parser from {kmin} bytes)>",
-                          "an incomplete v2 header that the wrapper already routed to V2Parser is rejected, parsed or dropped instead of waiting",
-                          witness=g2.describe(w))
-                facts = {"self.buffer": h[:k], d2: h[k:]}
-                w = must_pass_under(g2, facts, parse2)
-                ctx.check(w is None, "v2feed/completed-header-parsed", q2 + f" | <{name} header completed exactly (no payload) after a cut at {k}>",
-                          "a v2 header whose last byte has just arrived is not parsed until more data comes", witness=g2.describe(w))
-        hs = [st for st in walk_local(f2) if isinstance(st, ast.Assign) and isinstance(st.targets[0], ast.Tuple) and isinstance(st.value, ast.Tuple) and len(st.value.elts) == 2]
-        ok = False
-        for st in hs:
-            a, b = (slice_parts(e) for e in st.value.elts)
-            if a and b and src(a[0]) == src(b[0]) == "self.buffer" and a[1] is None and a[2] is not None and b[2] is None and b[1] is not None and src(a[2]) == src(b[1]):
-                sz = local_def(f2, a[2])
-                try:
-                    val = peval(sz, {"self.buffer": h0 + b"xyz"})
-                except NotConst:
-                    val = None
-                names = [src(e) for e in st.targets[0].elts]
-                pr = [c for c in walk_local(f2) if isinstance(c, ast.Call) and call_name(c) in ("self.parse", "cls.parse", "V2Parser.parse")]
-                ok = val == len(h0) and bool(pr) and src(pr[0].args[0]) == names[0] and any(isinstance(r, ast.Return) and isinstance(r.value, ast.Tuple) and src(r.value.elts[1]) == names[1] for r in walk_local(f2))
-        ctx.check(ok, "v2feed/header-and-payload-split", q2 + " | <split>",
-                  "feed() does not cut the buffer at 16 + the length field into (header given to parse, payload returned)")
-
+    kmin = _evaluated(ctx, K)
     with ctx.section("ADDRESSFORMATS"):
         # ================= (c) tables and constants ========================================================================================
         ca2 = class_assigns(ctx.cls(V2, "V2Parser"))
@@ -547,10 +603,8 @@ def check(ctx):
                   f"the allowed v1 protocols are {sorted(allowed)}; TCP4, TCP6 and UNKNOWN must all be accepted (and nothing else)")
     with ctx.section("parsed fields"):
         # source / destination slots
-        fp1 = _F(ctx, V1, "V1Parser.parse")
         fp2 = _F(ctx, V2, "V2Parser.parse")
-        for fp, qq, srcnames, dstnames in ((fp1, Q + "_v1parser.V1Parser.parse", ("sourceAddr", "sourcePort"), ("destAddr", "destPort")),
-                                          (fp2, Q + "_v2parser.V2Parser.parse", ("source", "sPort"), ("dest", "dPort"))):
+        for fp, qq, srcnames, dstnames in ((fp2, Q + "_v2parser.V2Parser.parse", ("source", "sPort"), ("dest", "dPort")),):
             n_ = 0
             for r in (x for x in walk_local(fp) if isinstance(x, ast.Return) and isinstance(x.value, ast.Call) and src(x.value.func).endswith("ProxyInfo") and len(x.value.args) == 3):
                 s_, d_ = r.value.args[1], r.value.args[2]
@@ -561,16 +615,7 @@ def check(ctx):
                 dn = {x.id for x in ast.walk(d_) if isinstance(x, ast.Name)}
                 ok = not (sn & set(dstnames)) and not (dn & set(srcnames)) and bool(sn & set(srcnames)) and bool(dn & set(dstnames))
                 ctx.check(ok, "parse/source-dest-slots", ctx.construct(qq, r), "a destination field is used for the source address (or the reverse)")
-            ctx.floor("parse/source-dest-slots", n_, 2)
-        # v1 field order: src addr, dst addr, src port, dst port
-        order = []
-        for st in walk_local(fp1):
-            if isinstance(st, ast.Assign) and isinstance(st.targets[0], ast.Tuple) and isinstance(st.value, ast.Call) and src(st.value.func) == "line.split":
-                order.append(src(st.targets[0].elts[0]))
-            elif isinstance(st, ast.Assign) and isinstance(st.targets[0], ast.Name) and "line.split" in src(st.value):
-                order.append(st.targets[0].id)
-        ctx.check(order == ["proxyStr", "networkProtocol", "sourceAddr", "destAddr", "sourcePort", "destPort"], "parse/v1-field-order", Q + "_v1parser.V1Parser.parse | <fields>",
-                  f"the v1 fields are not taken in the order 'PROXY proto src dst sport dport' (found {order})")
+            ctx.floor("parse/source-dest-slots", n_, 1)
         up = [st for st in walk_local(fp2) if isinstance(st, ast.Assign) and isinstance(st.targets[0], ast.Tuple) and len(st.targets[0].elts) == 4]
         ctx.check(any([src(e) for e in st.targets[0].elts] == ["source", "dest", "sPort", "dPort"] for st in up), "parse/v2-field-order", Q + "_v2parser.V2Parser.parse | <fields>",
                   "the unpacked v2 address block is not read as (source, dest, sPort, dPort)")
@@ -617,22 +662,20 @@ MUTANTS = [
            expect_rule="wrapper/invalid-header-closes"),
     Mutant("handler-narrowed-to-subclass", W, "        except InvalidProxyHeader:\n            self.loseConnection()\n", "        except MissingAddressData:\n            self.loseConnection()\n",
            more=[(W, "from ._exceptions import InvalidProxyHeader\n", "from ._exceptions import InvalidProxyHeader, MissingAddressData\n")], expect_rule="wrapper/invalid-header-closes"),
-    Mutant("parser-not-kept", W, "                self._parser = parser = V1Parser()", "                parser = V1Parser()", expect_rule="wrapper/parser-kept-across-segments"),
+    Mutant("parser-not-kept", W, "                self._parser = parser = V1Parser()", "                parser = V1Parser()", expect_rule="segmentation/invariant"),
     Mutant("pass-through-falls-into-parser", W, "        if self._proxyInfo is not None:\n            return self.wrappedProtocol.dataReceived(data)\n",
            "        if self._proxyInfo is not None:\n            self.wrappedProtocol.dataReceived(data)\n", expect_rule="wrapper/pass-through"),
     Mutant("addressformats-row-dropped", V2, "        34: \"!16s16s2H\",\n", "", expect_rule="v2table/address-formats"),
     Mutant("addressformats-wrong-width", V2, "        18: \"!4s4s2H\",\n", "        18: \"!4s4sH\",\n", expect_rule="v2table/address-formats"),
     Mutant("v2-complete-header-waits", V2, "        if len(self.buffer) < size:\n            return (None, None)", "        if len(self.buffer) <= size:\n            return (None, None)",
            expect_rule="v2feed/completed-header-parsed"),
-    Mutant("v2-sniff-hands-over-too-early", W, "                len(data) >= 16\n                and data[:12] == V2Parser.PREFIX", "                len(data) >= 13\n                and data[:12] == V2Parser.PREFIX",
-           expect_rule="v2feed/incomplete-waits"),
-    Mutant("v1-payload-crlf-splits-header", V1, "        lines = (self.buffer).split(self.NEWLINE, 1)", "        lines = (self.buffer).split(self.NEWLINE)", expect_rule="v1feed/split-once"),
+    Mutant("v1-payload-crlf-splits-header", V1, "        lines = (self.buffer).split(self.NEWLINE, 1)", "        lines = (self.buffer).split(self.NEWLINE)", expect_rule="v1feed/completed-header-parsed"),
     Mutant("v1-length-limit-too-low", V1, "        if len(self.buffer) > 107 and self.NEWLINE not in self.buffer:", "        if len(self.buffer) > 100 and self.NEWLINE not in self.buffer:",
            expect_rule="v1feed/length-limit-admits-longest-header"),
     Mutant("getpeer-returns-destination", W, "        if self._proxyInfo and self._proxyInfo.source:\n            return self._proxyInfo.source\n",
            "        if self._proxyInfo and self._proxyInfo.source:\n            return self._proxyInfo.destination\n", expect_rule="wrapper/address-from-header"),
     Mutant("v1-ports-crossed", V1, "                address.IPv4Address(\"TCP\", sourceAddr.decode(), int(sourcePort)),", "                address.IPv4Address(\"TCP\", sourceAddr.decode(), int(destPort)),",
-           expect_rule="parse/source-dest-slots"),
+           expect_rule="parse/v1-evaluated"),
     Mutant("v1-terminator-searched-in-new-segment-only", V1, "        if len(self.buffer) > 107 and self.NEWLINE not in self.buffer:\n            raise InvalidProxyHeader()\n        lines = (self.buffer).split(self.NEWLINE, 1)\n        if not len(lines) > 1:\n            return (None, None)\n",
            "        if len(self.buffer) > 107 and self.NEWLINE not in self.buffer:\n            raise InvalidProxyHeader()\n        if data.find(self.NEWLINE) < 0:\n            return (None, None)\n"
            "        lines = (self.buffer).split(self.NEWLINE, 1)\n", expect_rule="segmentation/invariant"),
@@ -663,5 +706,22 @@ SILENT = [
            more=[(W, "    def getPeer(self) -> interfaces.IAddress:",
                   "    def _pickParser(self, data):\n        if len(data) >= 16 and data[:12] == V2Parser.PREFIX and ord(data[12:13]) & 0b11110000 == 0x20:\n            return V2Parser()\n"
                   "        if len(data) >= 8 and data[:5] == V1Parser.PROXYSTR:\n            return V1Parser()\n        return None\n\n    def getPeer(self) -> interfaces.IAddress:")]),
+    Silent("v1-feed-by-partition-on-a-snapshot", V1,
+           "        self.buffer += data\n        if len(self.buffer) > 107 and self.NEWLINE not in self.buffer:\n            raise InvalidProxyHeader()\n"
+           "        lines = (self.buffer).split(self.NEWLINE, 1)\n        if not len(lines) > 1:\n            return (None, None)\n        self.buffer = b\"\"\n"
+           "        remaining = lines.pop()\n        header = lines.pop()\n        info = self.parse(header)\n        return (info, remaining)\n",
+           "        self.buffer = held = self.buffer + data\n        head, sep, tail = held.partition(self.NEWLINE)\n        if not sep:\n            if len(held) > 107:\n"
+           "                raise InvalidProxyHeader()\n            return (None, None)\n        self.buffer = b\"\"\n        return (self.parse(head), tail)\n"),
+    Silent("getpeer-gethost-share-a-lookup", W, "        if self._proxyInfo and self._proxyInfo.source:\n            return self._proxyInfo.source\n",
+           "        found = self._announced(\"source\")\n        if found:\n            return found\n",
+           more=[(W, "        if self._proxyInfo and self._proxyInfo.destination:\n            return self._proxyInfo.destination\n",
+                  "        found = self._announced(\"destination\")\n        if found:\n            return found\n"),
+                 (W, "    def getPeer(self) -> interfaces.IAddress:", "    def _announced(self, which):\n        info = self._proxyInfo\n        return info and getattr(info, which)\n\n    def getPeer(self) -> interfaces.IAddress:")]),
+    Silent("v1-parse-tcp-families-merged", V1,
+           "        if networkProtocol == cls.TCP4_PROTO:\n            return _info.ProxyInfo(\n                originalLine,\n                address.IPv4Address(\"TCP\", sourceAddr.decode(), int(sourcePort)),\n"
+           "                address.IPv4Address(\"TCP\", destAddr.decode(), int(destPort)),\n            )\n\n        return _info.ProxyInfo(\n            originalLine,\n"
+           "            address.IPv6Address(\"TCP\", sourceAddr.decode(), int(sourcePort)),\n            address.IPv6Address(\"TCP\", destAddr.decode(), int(destPort)),\n        )\n",
+           "        family = address.IPv4Address if networkProtocol == cls.TCP4_PROTO else address.IPv6Address\n        return _info.ProxyInfo(\n            originalLine,\n"
+           "            family(\"TCP\", sourceAddr.decode(), int(sourcePort)),\n            family(\"TCP\", destAddr.decode(), int(destPort)),\n        )\n"),
     Silent("handler-broadened", W, "        except InvalidProxyHeader:\n            self.loseConnection()\n", "        except (InvalidProxyHeader, ValueError):\n            self.loseConnection()\n"),
 ]
